@@ -146,7 +146,7 @@ class StoreSession:
 
     def restart(self):
         if self.reopen():
-            self._record({"op": "Restart"}, "ok", "", None, 0, {"m": "reopen"})
+            self._record({"op": "Restart", "defaults": False}, "ok", "", None, 0, {"m": "reopen"})
 
     def audit(self):
         s = self.store
